@@ -133,6 +133,20 @@ CLAIMED = {
                  "of an abstract class.  Not decided: agreement with the compiler on every hierarchy, is_abstract's virtual-function logic."),
         "note": "Trusted: clang 14 AST/CFG; ivf/spec/special_members.json; the get_*() lookups of user-declared members.",
     },
+    "C07": {
+        "level": "other",
+        "design_ref": "DESIGN.md section 3, C07 (R07.1-R07.6)",
+        "technique": "bison grammar reader + clang facts: production/constructor agreement, precedence table vs ISO C++, evaluator-arm table, switch exhaustiveness, division guards",
+        "text": ("Decides the operator-table clauses of C07: every expression production of the three expression non-terminals builds the node "
+                 "of its own operator with operands in source order (and the non-terminals agree); %left/%right order and associate the "
+                 "operators as ISO C++ does, unary above binary; each arm of evaluate()'s operator switch computes the C++ operator of its "
+                 "label on (r1, r2) in order with as_integer / as_real in the right branches, logical operators yield 0/1, unevaluable "
+                 "operators yield the error result; every operator constant that can be constructed (grammar actions cross-checked against "
+                 "clang's view of cppyyparse, plus C++ sites) has a case in evaluate/determine_type/output; integer / and % are guarded "
+                 "against 0 and INT_MIN/-1; the builder stores as_integer() only of results known to be integers and increments the implicit "
+                 "enumerator once per element.  Not decided: literal scanning (get_number, character escapes), int overflow."),
+        "note": "Trusted: clang 14 AST/CFG; ivf/grammar.py's reading of the .yxx; spec tables cxx_precedence.json / evaluator.json.",
+    },
 }
 
 NOT_APPLICABLE = {
